@@ -247,7 +247,11 @@ class FetchAttribute(Parseable[bytes]):
             -> tuple[Section, memoryview]:
         match = cls._sec_part_pattern.match(buf)
         if match:
-            section_parts = [int(num) for num in match.group(1).split(b'.')]
+            try:
+                section_parts = [int(num)
+                                 for num in match.group(1).split(b'.')]
+            except ValueError as exc:
+                raise NotParseable(buf) from exc
             buf = buf[match.end(0):]
         else:
             section_parts = []
@@ -313,7 +317,10 @@ class FetchAttribute(Parseable[bytes]):
         if match:
             if attr == b'BINARY.SIZE':
                 raise NotParseable(buf)
-            start, length = int(match.group(1)), int(match.group(2))
+            try:
+                start, length = int(match.group(1)), int(match.group(2))
+            except ValueError as exc:
+                raise NotParseable(buf) from exc
             if start < 0 or length <= 0:
                 raise NotParseable(buf)
             partial = FetchPartial(start, length)
